@@ -48,7 +48,7 @@ func VP_C18_fat12_table_48() { c18Table12(48) }
 func c18Fs(n int, bytesPerCluster int) (*FileSystem, *fat12Table) {
 	t := &fat12Table{fatID: 0xFF8, eoc: 0xFFF, clusters: make([]uint32, n+1), max: uint32(n), size: uint32((n + 1) * 3 / 2)}
 	for i := 2; i <= n; i++ {
-		t.clusters[i] = uint32(vp.U16("fat" + string(rune('a'+i)))) & 0xFFF
+		t.clusters[i] = uint32(vp.U16("fat"+string(rune('a'+i)))) & 0xFFF
 	}
 	dev := vpdev.NewMemDev("img", -1)
 	dev.UF = true
@@ -112,10 +112,18 @@ func VP_C18_fat12_chain_acyclic() {
 	}
 }
 
-// c18FileRead: File.Read with an arbitrary size field, offset and (forward-linked) chain.
+// c18NullDev delivers every read in full without touching the buffer (content is irrelevant for
+// the arithmetic of File.Read).
+type c18NullDev struct{ vpdev.MemDev }
+
+func (d *c18NullDev) ReadAt(p []byte, off int64) (int, error) { return len(p), nil }
+
+// c18FileRead: File.Read with an arbitrary size field, offset and (forward-linked) chain:
+// no panic, terminates, returns 0 <= n <= len(b).
 func c18FileRead(bytesPerCluster, buflen int) {
 	n := vp.Bound("fclusters", 4, 6)
 	fs, t := c18Fs(n, bytesPerCluster)
+	fs.backend = &c18NullDev{}
 	for i := 2; i <= n; i++ {
 		v := t.clusters[i]
 		vp.Assume(v == 0 || v > uint32(i))
@@ -127,10 +135,18 @@ func c18FileRead(bytesPerCluster, buflen int) {
 	b := make([]byte, buflen)
 	vp.Unwind(n + 3)
 	vp.MaxLoop(n + 1)
-	vp.KnownPanic("KF-C18-4", "fat12/file.go:131")
-	vp.KnownPanic("KF-C18-4", "fat12/file.go:133")
-	vp.KnownPanic("KF-C18-4", "fat12/file.go:132")
-	vp.KnownPanic("KF-C18-5", "fat12/file.go:156")
+	if bytesPerCluster == 0 {
+		// KF-C18-6: cluster size 0 (sectors per cluster 0 is accepted by fat32.Read): division by zero
+		vp.KnownPanic("KF-C18-6", "fat12.File).Read)")
+	} else {
+		if off%int64(bytesPerCluster) != 0 {
+			// KF-C18-5: read from the middle of a cluster with less than the rest of the cluster
+			// left in the file while the chain goes on: negative slice length
+			vp.KnownPanic("KF-C18-5", "fat12.File).Read)")
+		}
+		// KF-C18-4: offset inside the size field but beyond the clusters of the chain: index out of range
+		vp.KnownPanic("KF-C18-4", "fat12.File).Read)")
+	}
 	vp.NoPanic()
 	got, err := fl.Read(b)
 	vp.AllowPanic()
@@ -143,7 +159,7 @@ func c18FileRead(bytesPerCluster, buflen int) {
 	}
 }
 
-func VP_C18_fat12_file_read_512_512() { c18FileRead(512, 512) }
-func VP_C18_fat12_file_read_512_100() { c18FileRead(512, 100) }
+func VP_C18_fat12_file_read_512_512()  { c18FileRead(512, 512) }
+func VP_C18_fat12_file_read_512_100()  { c18FileRead(512, 100) }
 func VP_C18_fat12_file_read_512_1200() { c18FileRead(512, 1200) }
-func VP_C18_fat12_file_read_0_512()   { c18FileRead(0, 512) }
+func VP_C18_fat12_file_read_0_512()    { c18FileRead(0, 512) }
